@@ -138,6 +138,17 @@ package crypto
 //@ ensures ret(Raw, 0, 1) != nil ==> result1 != nil && result0 == nil
 //@ modifies nothing
 
+// the serialized form is always the protobuf encoding of (Type(), Raw()) of this very key - never a stored copy of
+// bytes received earlier (the peer ID is a function of these bytes)
+//@ func MarshalPublicKey
+//@ prop C08
+//@ noinline PublicKeyToProto
+//@ ensures called(PublicKeyToProto, 0) && arg(PublicKeyToProto, 0, 0) == k
+//@ ensures result1 == nil ==> ret(PublicKeyToProto, 0, 1) == nil && called(Marshal, 0) && arg(Marshal, 0, 0) == ret(PublicKeyToProto, 0, 0) &&
+//@         result0 == ret(Marshal, 0, 0) && ret(Marshal, 0, 1) == nil
+//@ ensures ret(PublicKeyToProto, 0, 1) != nil ==> result1 != nil && result0 == nil
+//@ noframe
+
 // decoding dispatches on the message's key type only; an unknown type is refused
 //@ func PublicKeyFromProto
 //@ prop C08
